@@ -15,7 +15,7 @@ def c05():
             runs.append({"harness": "vxH05Step", "args": [str(k), auth], "files": F, "reach": ["refuse", "forward", "either"],
                          "bounds": f"one request of type {k} from an arbitrary fid state (Type any byte without QTAUTH, opened, Omode symbolic), msize any value >= 24, dotu symbolic, all request fields full-width symbolic; AuthOps={auth}"})
     runs.append({"harness": "vxH05Auth", "args": [], "files": F, "reach": ["attached", "not-attached"], "bounds": "Tattach with symbolic uid, afid in {none, valid auth fid, unknown}, AuthCheck accepting/refusing"})
-    for k in (104, 110, 112, 114, 120):
+    for k in (104, 110, 112, 114, 120, 122):
         runs.append({"harness": "vxH05Visible", "args": [str(k)], "files": F, "preempt": 2, "reach": ["done"], "bounds": f"type {k}: observer goroutine at the reply rendezvous, all schedules with <= 2 preemptions"})
     return runs
 w("C05", {"quick": c05(), "thorough": c05(),
